@@ -1634,6 +1634,14 @@ func stdIntrinsic(name string, fn *ssa.Function) intrinsicFn {
 			}
 			return n
 		}
+	case strings.HasPrefix(name, "reflect.TypeFor["):
+		return func(x *Exec, f *ssa.Function, a []Value) Value {
+			if ta := f.TypeArgs(); len(ta) == 1 {
+				return x.rtypeOf(ta[0])
+			}
+			x.abort("UNSUPPORTED", "reflect.TypeFor without a type argument")
+			return nil
+		}
 	case strings.HasPrefix(name, "slices.Delete["):
 		// slices.Delete(s, i, j): removes s[i:j] in place (elements shifted down, vacated tail zeroed), result aliases s
 		return func(x *Exec, f *ssa.Function, a []Value) Value {
